@@ -643,6 +643,9 @@ def run(ctx):
     _stage_a(ctx)
     _stage_b(ctx)
     _stage_c(ctx)
+    # extension beyond the listed property (never a VIOLATION): the node's life cycle, spec/NodeLife.tla
+    from . import ext_life
+    ext_life.stage(ctx)
 
 
 def replay(ctx, path):
